@@ -19,7 +19,10 @@ use super::var::{Var, WeakVar};
 use super::{public, Incr};
 use core::fmt::Debug;
 use std::cell::{Cell, RefCell};
+#[cfg(not(cormacrelf_incremental_rs_verif))]
 use std::collections::HashMap;
+#[cfg(cormacrelf_incremental_rs_verif)]
+use crate::verif::HashMap;
 use std::rc::{Rc, Weak};
 
 pub(crate) mod expert;
